@@ -65,6 +65,10 @@ CHECKS = {
    technique="path helpers specified in TLA+ by stepwise resolution on component sequences (PathRes.tla); TLC checks the lemmas (canonical, never above root, idempotent, agreement) over the bounded input space and emits the expected result of every input; the real helpers are compared on all of them",
    text="A pure function with rich case analysis, transcribed from the property text. TLC enumerates every canonical directory of depth <=3 over {a,b} and every name list of length <=3/4 over a 12-symbol alphabet containing all special forms, proves the spec-level lemmas on that space and prints Valid / Normalize / WalkName / CreateName results; the harness requires the real ValidPath, NormalizePath (also: argument not modified, idempotent), WalkName and CreateName to agree on every one. Exhaustive within alphabet and bounds.",
    note="Trusted: PathRes.tla. Separator detection is by membership in the alphabet's separator-bearing names ('a/b', 'a\\b', '/'), not over all strings. ToWalk is not covered."),
+ "C17": dict(engine="readdir", cat="model_checking", ref="5 C17",
+   technique="TLA+ reference model of directory reading (Readdir.tla) checked by TLC; its complete LTS replayed on the real p9p.Readdir (directly and via Session.Read on a directory fid) with the returned bytes compared; client-side listing over a real connection at forced msizes",
+   text="TLC enumerates all listings of <=3/4 entries over 3/4 sizes, all partitions into iterator batches, all sequences of reads (sizes >= largest entry) incl. reads at wrong offsets, and checks offset = size of the delivered prefix, progress, whole entries within the requested size, empty reads at the end. Every transition is executed on the real Readdir and through an SFileSys session; the bytes must be the concatenated encodings of exactly the predicted entries. The client half lists 0..80-entry directories through CFileSys over ServeConn at msize = largest+11, +12, ... 65536 and must obtain exactly the server's entries.",
+   note="Trusted: Readdir.tla; the codec for the expected encodings (decided by C01). Bounds: <=4 entries in the LTS; longer listings only in the seeded client half."),
 }
 
 NA_REASON = "check not built yet in this round; planned per DESIGN.md section 5 (specification exists or is planned, no verdict is claimed)"
